@@ -89,6 +89,11 @@ def injectedLetIndex (stmts : List Node) : Option Nat :=
   | s :: _ => if (injectedLet? s).isSome then some i else none
   | [] => none
 
+/-- position of the injected `let` of a block: the first statement that is a declaration of temporaries
+    and carries the block's own position (which is what the rewriter gives it) -/
+def injectedLetAt (sp : Span) (stmts : List Node) : Option Nat :=
+  stmts.findIdx? (fun s => (injectedLet? s).isSome && s.span == sp)
+
 def dropAt (xs : List Node) : Option Nat → List Node
   | some i => xs.take i ++ xs.drop (i + 1)
   | none => xs
@@ -191,7 +196,7 @@ def erase (σ : Env) : Node → Node × Env
   | .block ss sp =>
     -- a block declares its own temporaries: bindings made inside do not escape (shadowing)
     let (ss', _) := eraseL σ ss
-    (.block (dropAt ss' (injectedLetIndex ss)) sp, σ)
+    (.block (dropAt ss' (injectedLetAt sp ss)) sp, σ)
   | .ifStmt t c a sp =>
     let (t', σ1) := erase σ t
     let (c', σ2) := erase σ1 c
